@@ -1,7 +1,7 @@
 //! C16 (server level): graceful shutdown cannot hang on a topic. Each case runs in the guarded child with a server of
 //! its own: peers are put into a given state, the process sends itself SIGINT (what `Server::listen` waits for), and
 //! `listen()` must return within a few seconds.
-//!   shut <state>     idle | pubsub | pubsub-flow | rr-requestor | rr-replier | rr-both | rr-unanswered | many
+//!   shut <state>     idle | pubsub | pubsub-flow | rr-requestor | rr-replier | rr-both | rr-unanswered | many | reg-parked
 //! Implementation line: `finished` | `hang` (then which state).
 use crate::e2e::*;
 use crate::util::*;
@@ -80,6 +80,22 @@ async fn run_state(state: &str) -> anyhow::Result<String> {
             tasks.push(tokio::spawn(async move { let _ = rq.request("never answered".to_string()).await; }));
             tokio::time::sleep(Duration::from_millis(150)).await;
         }
+        "reg-parked" => {
+            // a registration that is parked when the shutdown comes: the peer grants a 4-byte stream window, so the
+            // server cannot even hand it the 9-byte Ok frame (the task holds a clone of the topic's sender meanwhile)
+            let mut sub = client.subscriber("/verif/shutp").with_decoder(StringCodec).open().await?;
+            let mut publ = client.publisher("/verif/shutp").with_encoder(StringCodec).open().await?;
+            publ.send("one".to_string()).await?;
+            let _ = tokio::time::timeout(Duration::from_millis(500), sub.next()).await;
+            keep.push(Box::new(publ)); keep.push(Box::new(sub));
+            let conn = raw_connect_window(addr, &certs.client("ca.der"), Some((&certs.client("localhost.der"), &certs.client("localhost.key.der"))), Some(4)).await?;
+            let mut s1 = raw_stream(&conn).await?;
+            let _ = tokio::time::timeout(Duration::from_millis(300), s1.send(Frame::RegisterSubscriber(selium_protocol::SubscriberPayload { topic: TopicName::try_from("/verif/shutp")?, retention_policy: 0, operations: vec![] }))).await;
+            let mut s2 = raw_stream(&conn).await?;
+            let _ = tokio::time::timeout(Duration::from_millis(300), s2.send(Frame::RegisterRequestor(selium_protocol::RequestorPayload { topic: TopicName::try_from("/verif/shutq")? }))).await;
+            tokio::time::sleep(Duration::from_millis(200)).await;
+            keep.push(Box::new((conn, s1, s2)));
+        }
         other => anyhow::bail!("unknown state {other}"),
     }
     tokio::time::sleep(Duration::from_millis(50)).await;
@@ -104,7 +120,7 @@ pub fn run(cfg: &Cfg) {
     let mut out = Out::new(&cfg.out, "e2eshut");
     let cases: Vec<String> = match cfg.replay_lines() {
         Some(l) => l,
-        None => ["idle", "pubsub", "pubsub-flow", "rr-requestor", "rr-replier", "rr-both", "rr-unanswered", "many"].iter().map(|s| format!("shut {s}")).collect(),
+        None => ["idle", "pubsub", "pubsub-flow", "rr-requestor", "rr-replier", "rr-both", "rr-unanswered", "many", "reg-parked"].iter().map(|s| format!("shut {s}")).collect(),
     };
     for c in &cases {
         let state = c.split(' ').nth(1).unwrap_or("idle");
